@@ -9,22 +9,24 @@ history-defined specification the driver prints alongside).
 import ast
 import itertools
 import threading
+import time
 
 from harness.common import extract
 from harness.common.extract import NotRecognised
 from harness.common.shrink import ddmin
 
 PROP = "C10"
-DRIVER_MODULES = ["PsutilModel.Model.C10Gen", "PsutilModel.Spec.C10"]
+DRIVER_MODULES = ["PsutilModel.Model.C10Gen", "PsutilModel.Model.C10Front", "PsutilModel.Model.C10Conc", "PsutilModel.Spec.C10"]
+FINDING_FORMS = "C10-forms-share-cache"
 NEEDS_EXT = True
 TRUSTED = [
-    "C10 model: reminders/reminder_keys of _WrapNumbers are modelled as one total function (0 = absent); the platform layers' raw snapshots are inputs (C09 covers how they are parsed)",
-    "C10 concurrency: the theorem is about the sequence of run()/cache_clear() executions in lock order; the raw sample is taken outside the lock (stated limit)",
+    "C10 model: reminders/reminder_keys of _WrapNumbers are modelled as one total function (0 = absent); cache_info()'s return value is not modelled (only that its body is under the lock); the kernel listing (device, whole disk?, counters) is the input (C09 covers how it is parsed)",
+    "C10 concurrency: bodies of run()/cache_clear() are modelled as load + store under the lock; the raw sample is taken outside the lock (explicit `sample` action: lock order need not be sampling order)",
 ]
 MANIFEST = {
-    "level_text": "Machine-checked Lean 4 proof that the model of the front ends + _WrapNumbers.run/cache_clear refines a history-defined specification for EVERY history (C10_refines: any number of wraps, devices appearing/vanishing/reappearing, empty snapshots, cache_clear anywhere, alternating nowrap, the two functions interleaved), with corollaries C10_monotone, C10_value_formula, C10_reappear_fresh, C10_cache_clear_forgets, C10_nowrap_false_raw, C10_names_independent; plus a proved counterexample for the pre-fix front end (C10_reappear_needs_empty_feed). The model is tied to the code by translator facts (empty-snapshot handling, cache names, wrap comparison) that feed the proof obligation cfg_good, and by a differential run of the real front-end functions against the model on generated and exhaustively enumerated short histories, including two real threads checked against the serial execution in lock order. Partial only w.r.t. concurrency: the theorem speaks about lock order; the raw sample is taken outside the lock.",
-    "level_note": "Trusted: Lean kernel + {propext, Classical.choice, Quot.sound}; the translator; the correspondence harness; reminders/reminder_keys modelled as a total function; uniform tuple width and unique device names per snapshot are hypotheses (true of every platform layer's output).",
-    "technique": "Lean 4 refinement proof by induction over histories (invariant of _WrapNumbers) + translator-fed proof obligation + differential correspondence with exhaustive short histories",
+    "level_text": "Machine-checked Lean 4 proof that the model of the public front ends (per-device and system-wide form, Linux perdisk filter, cache_clear of one or two names) + _WrapNumbers.run/cache_clear refines a history-defined specification for EVERY history (C10_refines, C10_front_refines: any number of wraps, devices appearing/vanishing/reappearing, empty snapshots, cache_clear anywhere, alternating nowrap, both functions and both forms interleaved), that the system-wide form is the field-wise sum of the adjusted per-device tuples (C10_total_is_sum, C10_total_field) and never decreases while no device vanishes (C10_total_monotone; proved counterexample C10_total_drops_when_device_vanishes for the unrestricted statement), with corollaries C10_monotone, C10_value_formula, C10_reappear_fresh, C10_cache_clear_forgets, C10_nowrap_false_raw, C10_names_independent, and that every interleaving of any number of threads equals the serial execution in lock-acquisition order (C10_serialisable, C10_concurrent_refines; counterexample C10_unlocked_not_serialisable). Proved counterexamples for the pre-fix front end (C10_reappear_needs_empty_feed) and for the two forms of disk_io_counters sharing one cache name on Linux (C10_forms_share_history_counterexample: known finding C10-forms-share-cache, repair in fixes/). The model is tied to the code by 12 translator facts (empty-snapshot handling, cache names per form, names cleared, wrap comparison, Linux perdisk filter, run/cache_clear/cache_info under the lock) feeding cfg_good / cfg_good_conc, and by a differential run of the real front-end functions against model and specification on generated and exhaustively enumerated histories, including 2-3 real threads whose observed schedule is replayed through the Lean lock model.",
+    "level_note": "Trusted: Lean kernel + {propext, Classical.choice, Quot.sound}; the translator; the correspondence harness; reminders/reminder_keys modelled as a total function (cache_info's value not modelled); uniform tuple width and unique device names per snapshot are hypotheses (true of every platform layer's output); the raw sample is taken outside the lock.",
+    "technique": "Lean 4 refinement proof by induction over histories (invariant of _WrapNumbers) + small-step lock model with serialisability invariant + translator-fed proof obligations + differential correspondence with exhaustive short histories and replayed real-thread schedules",
     "design_ref": "DESIGN.md §5 C10",
 }
 ASSUMPTIONS = [
@@ -270,16 +272,46 @@ def facts(snap, F):
 # ------------------------------------------------------------------------------ implementation side
 
 
+def is_storage(k):
+    """scripted `_pslinux.is_storage_device`: partitions are not whole disks"""
+    return k not in ("sda1", "nvme0n1p1")
+
+
+def listing_of(op):
+    return [[k, is_storage(k), list(v)] for k, v in op["raw"]]
+
+
 class Impl:
-    """Drives the real front-end functions over scripted raw snapshots."""
+    """Drives the real front-end functions over scripted kernel listings. The platform functions are replaced
+    by scripted ones; the disk one honours `perdisk` the way `_pslinux.disk_io_counters` does (skips every
+    device that is not a whole disk when perdisk=False)."""
 
     def __init__(self, ctx):
         self.ps = ctx.psutil
         self.plat = self.ps._psplatform
-        self.next_raw = {"disk": {}, "net": {}}
+        self.next_raw = {"disk": [], "net": []}
+        self.tl = None                      # thread-local listings for the concurrent runs
+        self.sample_hook = None
         self.orig = (self.plat.disk_io_counters, self.plat.net_io_counters)
-        self.plat.disk_io_counters = lambda **kw: dict(self.next_raw["disk"])
-        self.plat.net_io_counters = lambda **kw: dict(self.next_raw["net"])
+
+        def listing(nm):
+            if self.tl is not None:
+                return self.tl.listing
+            return self.next_raw[nm]
+
+        def fake_disk(perdisk=False):
+            r = {k: tuple(v) for k, st, v in listing("disk") if perdisk or st}
+            if self.sample_hook:
+                self.sample_hook("disk", r)
+            return r
+
+        def fake_net():
+            r = {k: tuple(v) for k, st, v in listing("net")}
+            if self.sample_hook:
+                self.sample_hook("net", r)
+            return r
+        self.plat.disk_io_counters = fake_disk
+        self.plat.net_io_counters = fake_net
         self.width = {"disk": len(getattr(self.plat, "sdiskio", self.ps._common.sdiskio)._fields),
                       "net": len(self.ps._common.snetio._fields)}
         self.fn = {"disk": self.ps.disk_io_counters, "net": self.ps.net_io_counters}
@@ -294,18 +326,17 @@ class Impl:
         """Execute one op; return canonical outcome dict comparable with the driver's."""
         try:
             if op["op"] == "call":
-                self.next_raw[op["name"]] = {k: tuple(v) for k, v in op["raw"]}
+                self.next_raw[op["name"]] = listing_of(op)
                 kw = {"nowrap": op["nowrap"]}
                 kw["perdisk" if op["name"] == "disk" else "pernic"] = not op.get("total", False)
                 r = self.fn[op["name"]](**kw)
-                if r is None or r == {}:
-                    want_none = op.get("total", False)
-                    if (r is None) != want_none:
-                        return {"kind": "wrong-empty", "value": repr(r)}
-                    return {"kind": "none"}
-                if op.get("total", False):
-                    return {"kind": "total", "fields": [int(x) for x in r]}
-                return {"kind": "dict", "raw": [[k, [int(x) for x in v]] for k, v in r.items()]}
+                if r is None:
+                    return {"kind": "nil"}
+                if isinstance(r, dict):
+                    if not r:
+                        return {"kind": "none"}
+                    return {"kind": "dict", "raw": [[k, [int(x) for x in v]] for k, v in r.items()]}
+                return {"kind": "total", "fields": [int(x) for x in r]}
             if op["op"] == "clear":
                 self.fn[op["name"]].cache_clear()
                 return {"kind": "unit"}
@@ -317,24 +348,36 @@ class Impl:
             return {"kind": "exc", "exc": type(e).__name__}
 
 
-def project(op, out):
-    """What the model/spec promises for this op, in the shape Impl.do returns."""
-    if op["op"] == "call" and op.get("total", False) and out.get("kind") == "dict":
-        cols = list(zip(*[v for _, v in out["raw"]]))
-        return {"kind": "total", "fields": [sum(c) for c in cols]}
-    return out
+def driver_line(op):
+    if op["op"] == "call":
+        return {"op": "fcall", "fn": op["name"], "nowrap": op["nowrap"], "perdev": not op.get("total", False),
+                "listing": listing_of(op)}
+    if op["op"] == "clear":
+        return {"op": "fclear", "fn": op["name"]}
+    return {"op": "fclearall"}
 
 
-def strip_op(op):
-    return {k: v for k, v in op.items() if k != "total"}
+def floor_violation(impl_out, floor):
+    """first (device, field) whose value is below the lower bound the property statement gives, else None"""
+    if impl_out.get("kind") != "dict":
+        return None
+    got = dict((k, v) for k, v in impl_out["raw"])
+    for k, fl in floor:
+        v = got.get(k)
+        if v is None:
+            continue
+        for i, (x, y) in enumerate(zip(v, fl)):
+            if x < y:
+                return [k, i, x, y]
+    return None
 
 
 def run_histories(ctx, impl, hists):
-    """Return per history the list of (op, impl_out, model_out, spec_out)."""
+    """Return per history the list of (op, impl_out, model_out, spec_out, floor)."""
     lines = []
     for h in hists:
         lines.append({"op": "reset"})
-        lines.extend(strip_op(o) for o in h)
+        lines.extend(driver_line(o) for o in h)
     drv = ctx.driver()
     outs = drv.batch(lines)
     res = []
@@ -348,9 +391,15 @@ def run_histories(ctx, impl, hists):
             i += 1
             if "bad" in m:
                 raise RuntimeError("driver rejected %r: %s" % (o, m))
-            rows.append((o, impl.do(o), project(o, m["model"]), project(o, m["spec"])))
+            rows.append((o, impl.do(o), m["model"], m["spec"], m.get("floor", [])))
         res.append(rows)
     return res, len(lines)
+
+
+def mixes_forms(hist):
+    """region of finding C10-forms-share-cache: nowrap=True calls of disk_io_counters in both forms"""
+    forms = {bool(o.get("total")) for o in hist if o["op"] == "call" and o["name"] == "disk" and o["nowrap"]}
+    return len(forms) == 2
 
 
 # ------------------------------------------------------------------------------ generators
@@ -422,6 +471,43 @@ def gen_history(rng, impl, family):
             if rng.random() < 0.3:
                 present[nm0].add(rng.choice(DEVS[nm0]))
             call(nm0)
+    elif family == "rename":
+        # a device vanishes while another one shows up in the SAME snapshot (NIC rename, disk re-enumeration):
+        # the number of devices does not change; later the old name comes back
+        pool = [d for d in DEVS[nm0] if is_storage(d)]
+        a, b = rng.sample(pool, 2)
+        keep = [d for d in pool if d not in (a, b)][:rng.randrange(0, 2)]
+        present[nm0] = set(keep) | {a}
+        for _ in range(rng.randrange(2, 5)):
+            call(nm0, total=False)
+        for _ in range(rng.randrange(1, 4)):
+            present[nm0] = set(keep) | ({b} if a in present[nm0] else {a})
+            for _ in range(rng.randrange(1, 3)):
+                call(nm0, total=False)
+        present[nm0] = set(keep) | {a, b}
+        for _ in range(rng.randrange(2, 4)):
+            call(nm0, total=False)
+    elif family == "total":
+        # system-wide form only: wraps, devices joining and leaving
+        call(nm0, total=True)
+        for _ in range(n_ops):
+            r = rng.random()
+            if r < 0.25:
+                d = rng.choice(DEVS[nm0][:ndev + 1])
+                (present[nm0].discard if d in present[nm0] else present[nm0].add)(d)
+            if r > 0.92:
+                call(nm0, raw=[], total=True)
+            else:
+                call(nm0, total=True, nowrap=rng.random() < 0.9)
+    elif family == "forms":
+        # both forms of disk_io_counters interleaved while a partition (not a whole disk) stays listed
+        present["disk"] = {"sda", "sda1"} | set(DEVS["disk"][:ndev])
+        for _ in range(n_ops):
+            r = rng.random()
+            if r < 0.05:
+                h.append({"op": "clear", "name": "disk"})
+            else:
+                call("disk", total=rng.random() < 0.4, nowrap=rng.random() < 0.9)
     else:  # mixed / long
         for _ in range(n_ops):
             r = rng.random()
@@ -439,7 +525,7 @@ def gen_history(rng, impl, family):
 
 
 FAMILIES = ["two_wraps", "reappear", "all_vanish", "clear_between", "alt_nowrap", "interleaved",
-            "new_device", "mixed", "long"]
+            "new_device", "mixed", "long", "total", "forms", "rename"]
 
 
 def history_features(h):
@@ -469,6 +555,8 @@ def history_features(h):
             last[nm] = cur
             if o.get("total"):
                 feats.add("total")
+                if prev is not None and set(prev) - set(cur):
+                    feats.add("total_after_vanish")
         elif o["op"] in ("clear", "clearall"):
             feats.add("clear")
             if o["op"] == "clearall":
@@ -479,6 +567,8 @@ def history_features(h):
                 seen_keys.pop(o["name"], None)
     if len({o.get("name") for o in h if o["op"] == "call"}) > 1:
         feats.add("two_functions")
+    if mixes_forms(h):
+        feats.add("both_forms_of_disk")
     return feats
 
 
@@ -491,6 +581,7 @@ def exhaustive_histories(impl, maxlen):
     alphabet.append({"op": "call", "name": "disk", "nowrap": True, "raw": [], "total": False})
     alphabet.append({"op": "clear", "name": "disk"})
     alphabet += [{"op": "call", "name": "disk", "nowrap": False, "raw": [["sda", t(v)]], "total": False} for v in (0, 2)]
+    alphabet.append({"op": "call", "name": "disk", "nowrap": True, "raw": [["sda", t(1)]], "total": True})
     for n in range(1, maxlen + 1):
         for combo in itertools.product(alphabet, repeat=n):
             yield list(combo)
@@ -499,43 +590,81 @@ def exhaustive_histories(impl, maxlen):
 # ------------------------------------------------------------------------------ correspondence
 
 
-def compare(rows, res, source):
+def first_bad(rows):
+    """(index, kind, detail) of the first step that disagrees: 'spec' (≠ history-defined specification),
+    'floor' (a device that stayed listed went backwards: the property statement itself), 'model'."""
+    for i, (o, im, mo, sp, floor) in enumerate(rows):
+        if im != sp:
+            return i, "spec", None
+        fv = floor_violation(im, floor)
+        if fv is not None:
+            return i, "floor", fv
+        if im != mo:
+            return i, "model", None
+    return None
+
+
+def compare(ctx, rows, res, source):
     """Record disagreements of one executed history; return True if any."""
     hist = [r[0] for r in rows]
-    for i, (o, im, mo, sp) in enumerate(rows):
-        if im != sp:
-            res.disagree("spec", {"history": hist[:i + 1], "source": source}, im, mo, sp,
-                         note="step %d: implementation differs from the history-defined specification" % i)
-            return True
-        if im != mo:
-            res.disagree("model", {"history": hist[:i + 1], "source": source}, im, mo, sp,
-                         note="step %d: implementation differs from the Lean model" % i)
-            return True
-    return False
+    bad = first_bad(rows)
+    if bad is None:
+        return False
+    i, kind, detail = bad
+    o, im, mo, sp, floor = rows[i]
+    inp = {"history": hist[:i + 1], "source": source}
+    if kind == "spec":
+        res.disagree("spec", inp, im, mo, sp,
+                     note="step %d: implementation differs from the history-defined specification" % i)
+    elif kind == "floor":
+        known = any(f.get("id") == FINDING_FORMS for f in ctx.findings) and mixes_forms(hist[:i + 1])
+        if known:
+            res.known_seen[FINDING_FORMS] = res.known_seen.get(FINDING_FORMS, 0) + 1
+        res.disagree("spec", inp, im, mo, {"kind": "at-least", "raw": floor},
+                     note="step %d: device %s stayed listed by the kernel, yet field %d went from %d down to %d "
+                          "between two per-device nowrap=True calls" % (i, detail[0], detail[1], detail[3], detail[2]),
+                     finding=FINDING_FORMS if known else None)
+    else:
+        res.disagree("model", inp, im, mo, sp, note="step %d: implementation differs from the Lean model" % i)
+    return True
+
+
+def corpus_histories(w):
+    def c(nm, raw, total=False, nowrap=True):
+        return {"op": "call", "name": nm, "nowrap": nowrap, "raw": [[k, [v] * w[nm]] for k, v in raw], "total": total}
+    return [
+        # the lead L10 witness and a double wrap
+        [c("disk", [("sda", 100)]), c("disk", []), c("disk", [("sda", 5)])],
+        [c("disk", [("sda", 100)]), c("disk", [("sda", 10)]), c("disk", [("sda", 5)], total=True)],
+        # C10_total_drops_when_device_vanishes: the system-wide figure goes down when a device leaves / comes back
+        [c("net", [("a", 100), ("b", 50)], total=True), c("net", [("a", 100)], total=True)],
+        [c("net", [("a", 100)], total=True), c("net", [("a", 10)], total=True), c("net", [], total=True),
+         c("net", [("a", 20)], total=True)],
+        # total = Σ of adjusted per-device values, new device joining
+        [c("net", [("lo", 7), ("eth0", 900)], total=True), c("net", [("lo", 3), ("eth0", 20)], total=True),
+         c("net", [("lo", 4), ("eth0", 21), ("wlan0", 5)], total=True)],
+        # a device replaced by another one in the same snapshot, then back: it must start afresh
+        [c("net", [("eth0", 100)]), c("net", [("eth0", 10)]), c("net", [("wan0", 5)]),
+         c("net", [("wan0", 6), ("eth0", 3)]), c("net", [("wan0", 7), ("eth0", 4)])],
+        # C10_forms_share_history_counterexample (both forms of disk_io_counters, partition stays listed)
+        [c("disk", [("sda", 100), ("sda1", 100)]), c("disk", [("sda", 10), ("sda1", 10)]),
+         c("disk", [("sda", 11), ("sda1", 11)], total=True), c("disk", [("sda", 12), ("sda1", 12)])],
+    ]
 
 
 def correspond(ctx, res):
     impl = Impl(ctx)
     try:
-        res.rule = ("histories of front-end calls/cache_clears from 9 clause-directed families "
-                    "(PRNG from VERIF_SEED) plus an exhaustive sweep of all short histories over "
-                    "one device; non-trivial = the history contains a wrap, a vanish/reappear, an "
-                    "empty snapshot or a cache_clear; distinct = distinct op sequences")
+        res.rule = ("histories of public calls (both functions, per-device and system-wide form, nowrap True/False) "
+                    "and cache_clears from 12 clause-directed families (PRNG from VERIF_SEED) plus an exhaustive "
+                    "sweep of all short histories over one device, plus real threads replayed through the Lean "
+                    "lock model; non-trivial = the history contains a wrap, a vanish/reappear, an empty snapshot "
+                    "or a cache_clear; distinct = distinct op sequences")
         hists, tags = [], []
-        # corpus first: the lead L10 witness and a double wrap
-        w = impl.width["disk"]
-        corpus = [
-            [{"op": "call", "name": "disk", "nowrap": True, "raw": [["sda", [100] * w]], "total": False},
-             {"op": "call", "name": "disk", "nowrap": True, "raw": [], "total": False},
-             {"op": "call", "name": "disk", "nowrap": True, "raw": [["sda", [5] * w]], "total": False}],
-            [{"op": "call", "name": "disk", "nowrap": True, "raw": [["sda", [100] * w]], "total": False},
-             {"op": "call", "name": "disk", "nowrap": True, "raw": [["sda", [10] * w]], "total": False},
-             {"op": "call", "name": "disk", "nowrap": True, "raw": [["sda", [5] * w]], "total": True}],
-        ]
-        for h in corpus:
+        for h in corpus_histories(impl.width):
             hists.append(h)
             tags.append("corpus")
-        n = ctx.n(600, 30000)
+        n = ctx.n(720, 36000)
         for i in range(n):
             fam = FAMILIES[i % len(FAMILIES)]
             hists.append(gen_history(ctx.rng, impl, fam))
@@ -559,75 +688,188 @@ def correspond(ctx, res):
                 for f in feats:
                     res.count("feature:" + f)
                 res.count("ops", len(h))
+                res.count("calls:system-wide", sum(1 for o in h if o["op"] == "call" and o.get("total")))
+                res.count("calls:per-device", sum(1 for o in h if o["op"] == "call" and not o.get("total")))
+                res.count("floor-checked devices", sum(len(r[4]) for r in rows))
                 res.case(h, nontrivial=bool(feats & {"wrap", "vanish", "reappear", "empty", "clear"}),
-                         sample={"family": tag, "history": h, "impl_last": rows[-1][1]} if (a + j) in (1, 2, 5, 9) else None)
-                compare(rows, res, tag)
-        res.exhaustive = "all %d histories of length <= %d over the alphabet {call(sda=0|1|2), call({}), clear, call(nowrap=False, 0|2)}; the random families are samples" % (len(hists) - n_rand, maxlen)
+                         sample={"family": tag, "history": h, "impl_last": rows[-1][1]} if (a + j) in (1, 2, 3, 5, 9) else None)
+                compare(ctx, rows, res, tag)
+        res.exhaustive = ("all %d histories of length <= %d over the alphabet {call(sda=0|1|2), call({}), clear, "
+                          "call(nowrap=False, 0|2), system-wide call(sda=1)}; the random families are samples"
+                          % (len(hists) - n_rand, maxlen))
         res.extra["driver_lines"] = total_lines
-        # two real threads: outputs must equal the model run in lock order
-        conc = concurrent(ctx, impl, res, ctx.n(6, 200))
+        # real threads: outputs must equal the Lean lock model replaying the observed schedule, and the serial
+        # specification in lock order
+        conc = concurrent(ctx, impl, res, ctx.n(8, 200))
         res.extra["concurrent_runs"] = conc
     finally:
         impl.close()
 
 
+class LoggingLock:
+    """Stands in for `_wn.lock`: same mutual exclusion (it wraps the real lock), but logs who got it."""
+
+    def __init__(self, real, events):
+        self.real = real
+        self.events = events
+
+    def __enter__(self):
+        self.real.acquire()
+        self.events.append(("acquire", threading.get_ident()))
+        time.sleep(0.0003)          # hold the lock across a thread switch: the others really wait for it
+        return self
+
+    def __exit__(self, *a):
+        self.events.append(("release", threading.get_ident()))
+        self.real.release()
+        return False
+
+    def acquire(self, *a, **k):
+        r = self.real.acquire(*a, **k)
+        if r:
+            self.events.append(("acquire", threading.get_ident()))
+        return r
+
+    def release(self):
+        self.events.append(("release", threading.get_ident()))
+        self.real.release()
+
+
 def concurrent(ctx, impl, res, runs):
-    """Two real threads call the front ends at once; `_wn.run` is wrapped to log the lock order.
-    The outputs must be those of the model executed serially in that order."""
+    """2-3 real threads call the front end (and cache_clear) at once. `_wn.lock` is wrapped to log the lock
+    order, the scripted platform function logs when each raw sample is taken (outside the lock). The observed
+    event sequence is turned into a schedule of the Lean small-step model (sample / acquire / load / store /
+    release); the model must accept it, and every thread's return values must be the ones the model and the
+    serial specification in lock order give."""
     wn = impl.ps._common._wn
-    orig_run = wn.run
+    real_lock = wn.lock
     done = 0
     for r in range(runs):
         impl.reset()
-        order = []
-
-        def logged(input_dict, name, _o=orig_run):
-            order.append((threading.get_ident(), name, [[k, list(v)] for k, v in input_dict.items()]))
-            return _o(input_dict, name)
-        wn.run = logged
+        events = []
+        nthreads = 2 + (r % 2)
+        plans = {}
+        for t in range(nthreads):
+            plan = []
+            for _ in range(ctx.rng.randrange(3, 8)):
+                if t == 2 and ctx.rng.random() < 0.5:
+                    plan.append(("clear", None))
+                else:
+                    plan.append(("call", [["sda", True, gen_tuple(ctx.rng, impl.width["disk"], "small")]]))
+            plans[t] = plan
+        tl = threading.local()
+        impl.tl = tl
+        def hook(nm, raw):
+            events.append(("sample", threading.get_ident(), [[k, list(v)] for k, v in raw.items()]))
+            time.sleep(0.0002)      # sampled, not yet at the lock: lets another thread overtake
+        impl.sample_hook = hook
+        wn.lock = LoggingLock(real_lock, events)
         outs = {}
+        tid_of = {}
         try:
-            plans = {}
-            for t in range(2):
-                nm = "disk"
-                plans[t] = [[["sda", gen_tuple(ctx.rng, impl.width[nm], "small")]] for _ in range(ctx.rng.randrange(3, 8))]
-            # thread-local raw feeding: each thread passes its own snapshot through a thread-local
-            tl = threading.local()
-            impl.plat.disk_io_counters = lambda **kw: dict(tl.raw)
-            barrier = threading.Barrier(2)
+            barrier = threading.Barrier(nthreads)
 
             def work(t):
                 res_t = []
+                tid_of[threading.get_ident()] = t
                 barrier.wait()
-                for raw in plans[t]:
-                    tl.raw = {k: tuple(v) for k, v in raw}
+                for kind, listing in plans[t]:
                     try:
-                        rr = impl.ps.disk_io_counters(perdisk=True, nowrap=True)
-                        res_t.append([[k, [int(x) for x in v]] for k, v in rr.items()])
+                        if kind == "clear":
+                            events.append(("wantclear", threading.get_ident()))
+                            impl.ps.disk_io_counters.cache_clear()
+                            res_t.append({"kind": "unit"})
+                        else:
+                            tl.listing = listing
+                            rr = impl.ps.disk_io_counters(perdisk=True, nowrap=True)
+                            res_t.append({"kind": "dict", "raw": [[k, [int(x) for x in v]] for k, v in rr.items()]})
                     except Exception as e:
-                        res_t.append({"exc": type(e).__name__})
-                outs[threading.get_ident()] = res_t
-            ths = [threading.Thread(target=work, args=(t,)) for t in range(2)]
+                        res_t.append({"kind": "exc", "exc": type(e).__name__})
+                outs[t] = res_t
+            ths = [threading.Thread(target=work, args=(t,)) for t in range(nthreads)]
             for th in ths:
                 th.start()
             for th in ths:
                 th.join()
         finally:
-            wn.run = orig_run
-            impl.plat.disk_io_counters = lambda **kw: dict(impl.next_raw["disk"])
-        # model in lock order
-        lines = [{"op": "reset"}] + [{"op": "call", "name": "disk", "nowrap": True, "raw": raw} for _, _, raw in order]
-        mouts = ctx.driver().batch(lines)[1:]
-        per_thread = {}
-        for (tid, _, raw), m in zip(order, mouts):
-            per_thread.setdefault(tid, []).append(m["spec"].get("raw"))
-        hist = [{"thread": tid, "raw": raw} for tid, _, raw in order]
-        for tid, got in outs.items():
-            if got != per_thread.get(tid, []):
-                res.disagree("spec", {"concurrent_lock_order": hist}, got, None, per_thread.get(tid, []),
-                             note="two-thread run is not the serial execution in lock order")
-        res.case(("conc", hist), nontrivial=len({t for t, _, _ in order}) > 1)
+            wn.lock = real_lock
+            impl.tl = None
+            impl.sample_hook = None
+        # observed events -> schedule of the Lean model. The body (load, store) runs between acquire and release.
+        acts = []
+        slot = None
+        for ev in list(events):
+            t = tid_of[ev[1]]
+            if ev[0] == "sample":
+                acts.append({"a": "sample", "t": t, "name": "SLOT", "raw": ev[2]})
+            elif ev[0] == "wantclear":
+                acts.append({"a": "wantclear", "t": t, "name": "disk"})
+            elif ev[0] == "acquire":
+                acts += [{"a": "acquire", "t": t}, {"a": "load", "t": t}]
+            else:
+                acts += [{"a": "store", "t": t}, {"a": "release", "t": t}]
+        # which slot the per-disk form uses is a translator fact: ask the driver
+        probe = ctx.driver().batch([{"op": "reset"}, {"op": "fcall", "fn": "disk", "nowrap": True, "perdev": True,
+                                                      "listing": [["sda", True, [0] * impl.width["disk"]]]}])[1]
+        slot = probe["slot"]
+        clear_both = None
+        for a in acts:
+            if a.get("name") == "SLOT":
+                a["name"] = slot
+        if slot != "disk":
+            # disk_io_counters.cache_clear() takes the lock once per name it clears: first "disk", then "diskper"
+            seen = {}
+            k = 0
+            for a in acts:
+                if a["a"] == "wantclear":
+                    seen[a["t"]] = 0
+            fixed = []
+            pending = {}
+            for a in acts:
+                if a["a"] == "wantclear":
+                    pending[a["t"]] = ["disk", "diskper"]
+                    continue
+                if a["a"] == "acquire" and pending.get(a["t"]):
+                    fixed.append({"a": "wantclear", "t": a["t"], "name": pending[a["t"]].pop(0)})
+                fixed.append(a)
+            acts = fixed
+        m = ctx.driver().batch([{"op": "reset"}, {"op": "sched", "acts": acts}])[1]
+        hist = {"concurrent_schedule": acts, "plans": {str(t): plans[t] for t in plans}}
+        model = m["model"]
+        if model.get("kind") != "sched" or not model.get("lock_free"):
+            res.disagree("model", hist, outs, model, None,
+                         note="the observed thread schedule is not a run of the Lean lock model (a body ran without the lock, or out of order)")
+        else:
+            for key, what in (("outs", "model"), ("spec", "spec")):
+                seq = m["spec"] if key == "spec" else model["outs"]
+                per_thread = {}
+                for t, o in seq:
+                    per_thread.setdefault(t, []).append(o)
+                for t, got in outs.items():
+                    # a cache_clear of two names shows up as two bodies in the model, one return value in Python
+                    want = per_thread.get(t, [])
+                    if slot != "disk":
+                        want2, skip = [], False
+                        for o in want:
+                            if o.get("kind") == "unit":
+                                if skip:
+                                    skip = False
+                                    continue
+                                skip = True
+                            want2.append(o)
+                        want = want2
+                    if got != want:
+                        res.disagree(what, hist, got, model["outs"], m["spec"],
+                                     note="thread %d: return values differ from the %s executed serially in lock order" % (
+                                         t, "history-defined specification" if what == "spec" else "Lean lock model"))
+                        break
+            if model["outs"] != model["serial"]:
+                res.disagree("model", hist, outs, model, None, note="lock model: outs differ from its own serial execution")
+        order = model.get("order", [])
+        res.case(("conc", acts), nontrivial=len(set(order)) > 1)
         res.count("family:concurrent")
+        res.count("concurrent:bodies", len(order))
+        res.count("concurrent:lock handovers between threads", sum(1 for x, y in zip(order, order[1:]) if x != y))
         done += 1
     return done
 
@@ -638,7 +880,8 @@ def search(ctx, res, broken):
 
 def _fails(ctx, impl, hist):
     results, _ = run_histories(ctx, impl, [hist])
-    return any(im != sp for _, im, _, sp in results[0])
+    bad = first_bad(results[0])
+    return bad is not None and bad[1] in ("spec", "floor")
 
 
 def shrink(ctx, d):
@@ -649,9 +892,13 @@ def shrink(ctx, d):
     try:
         small = ddmin(hist, lambda h: _fails(ctx, impl, h), max_tests=60)
         results, _ = run_histories(ctx, impl, [small])
-        for i, (o, im, mo, sp) in enumerate(results[0]):
-            if im != sp:
-                return dict(d, input={"history": small[:i + 1], "source": "shrunk"}, impl=im, model=mo, spec=sp)
+        bad = first_bad(results[0])
+        if bad is not None and bad[1] in ("spec", "floor"):
+            i = bad[0]
+            o, im, mo, sp, floor = results[0][i]
+            if bad[1] == "floor":
+                sp = {"kind": "at-least", "raw": floor}
+            return dict(d, input={"history": small[:i + 1], "source": "shrunk"}, impl=im, model=mo, spec=sp)
     finally:
         impl.close()
     return d
@@ -666,3 +913,41 @@ def replay(ctx, rp, res):
         return _fails(ctx, impl, hist)
     finally:
         impl.close()
+
+
+DISKSTATS = "%4d %7d %s %d %d %d %d %d %d %d %d 0 %d %d\n"
+
+
+def check_finding(ctx, fnd):
+    """Replays the witness of C10-forms-share-cache through the REAL Linux platform layer: a fake
+    <procfs>/diskstats listing the whole disk `sda` and its partition `sda1`, `_pslinux.is_storage_device`
+    scripted (sda1 is not a whole disk); public calls perdisk=True, perdisk=True, perdisk=False, perdisk=True."""
+    import os
+    import shutil
+    import tempfile
+    if fnd.get("id") != FINDING_FORMS:
+        return "unknown"
+    ps = ctx.psutil
+    plat = ps._psplatform
+    tmp = tempfile.mkdtemp(prefix="psv-c10-")
+    old_path, old_isd = ps.PROCFS_PATH, plat.is_storage_device
+    try:
+        ps.PROCFS_PATH = tmp
+        plat.is_storage_device = lambda name: name == "sda"
+
+        def write(v):
+            with open(os.path.join(tmp, "diskstats"), "w") as f:
+                for minor, nm in ((0, "sda"), (1, "sda1")):
+                    f.write(DISKSTATS % (8, minor, nm, v, v, v, v, v, v, v, v, v, v))
+        ps.disk_io_counters.cache_clear()
+        seen = []
+        for v, perdisk in fnd["witness"]["calls"]:
+            write(v)
+            r = ps.disk_io_counters(perdisk=perdisk, nowrap=True)
+            seen.append(r["sda1"].read_count if perdisk else None)
+        ps.disk_io_counters.cache_clear()
+        per = [x for x in seen if x is not None]
+        return "reproduces" if any(b < a for a, b in zip(per, per[1:])) else "gone"
+    finally:
+        ps.PROCFS_PATH, plat.is_storage_device = old_path, old_isd
+        shutil.rmtree(tmp, ignore_errors=True)
